@@ -24,6 +24,12 @@ def check_allocator(ctx, pid="C27"):
     comp = Component(ctx.repo, REL, "CircularAllocator", rule=pid)
     comp.require_modelled(pid)
     ctx.floor(pid, "CircularAllocator configurations", len(comp.configs), 5, comp.site)
+    from . import ranges as _rg
+
+    for meth, fld in (("alloc", "idents"), ("alloc", "new_end_idx"), ("free", "idents"), ("free", "new_start_idx")):
+        _rg.ident_field_range(ctx, f"{pid}.ident-range", comp.site, f"CircularAllocator.{meth}.{fld}", comp.init_attr(meth), "o", fld, "self.entries", "identifiers and ring positions range over the entries")
+    for reg in ("start_idx", "end_idx"):
+        _rg.signal_range(ctx, f"{pid}.ident-range", comp.site, f"CircularAllocator.{reg}.shape", comp.init_attr(reg), "self.entries", "a ring position ranges over the entries")
     # declared range of the occupancy counter
     decl = comp.init_attr("allocated")
     ok = decl is not None and pmatch("Signal(range(Q_n))", decl) is not None and lin_equal(pmatch("Signal(range(Q_n))", decl)["n"], pat("self.entries + 1"))
